@@ -728,7 +728,7 @@ def _cls_of(c):
         return '$'
     if c in '.-':
         return 'P'
-    if c in '中ア':
+    if c in '中ア公里米':
         return 'C'
     if c == '한':
         return 'K'
@@ -1143,6 +1143,18 @@ _SHAPES = [
      [[('a', 'P'), ('a', 'Q'), ('b', 'Q')], [('ab', 'P'), ('abc', 'P'), ('bc', 'Q')]]),
 ]
 
+
+def _perms(*bases):
+    return [list(p) for b in bases for p in _it.permutations(b)]
+
+
+# insertion order must not matter: a phrase that is a token-wise proper prefix of another one, and a phrase listed twice, in
+# EVERY order (a walk through an existing leaf must neither replace it nor lose its ids); queries one token shorter than in the
+# other classes, the dictionaries are many
+_ORDER_QUICK = _perms(['a', 'ab', 'abb'], [('a', 'P'), ('a', 'Q'), ('ab', 'R')])
+_ORDER_EXTRA = _perms(['ab', 'aba', 'a'], ['a', 'b', 'ab'], [('ab', 'P'), ('ab', 'Q'), ('a', 'R')], ['a', 'aa', 'aaa'])
+_SHAPES.append(('prefix chains and repeated phrases in every insertion order', 'ids', _ORDER_QUICK, _ORDER_EXTRA))
+
 _SHAPE_OK = 'exactly the token-aligned occurrences (start, length, text = query slice, ids), independent of earlier calls'
 
 
@@ -1248,7 +1260,7 @@ def rule_matcher_tab(chk, idx):
     _tab_tokens(chk, idx, tier)
     chk.rule(_TAB_FIND, 'StringMatcher built and queried by interpreting the code: find returns exactly the token-aligned '
                         'occurrences of the inserted phrases with offsets, text and ids, independent of earlier calls and of '
-                        'other matchers', floor=9, control=True)
+                        'other matchers', floor=12, control=True)
     sm = idx.cls('recognizers_text.matcher.string_matcher.StringMatcher')
     line = sm.methods['find'].lineno if 'find' in sm.methods else None
     nmax = {1: 5, 2: 4, 3: 3} if tier == 'quick' else {1: 6, 2: 5, 3: 4}
@@ -1258,9 +1270,10 @@ def rule_matcher_tab(chk, idx):
         dicts = quick + (extra if tier != 'quick' else [])
         fail = None
         n_calls = 0
+        nm = nmax if not name.endswith('every insertion order') else {k: v - 1 for k, v in nmax.items()}
         for raw in dicts:
             spec = (form, raw)
-            calls, f = _tab_dictionary(idx, spec, 'simple', _queries(_entries_of(spec), 'simple', nmax))
+            calls, f = _tab_dictionary(idx, spec, 'simple', _queries(_entries_of(spec), 'simple', nm))
             n_calls += calls
             if f is not None:
                 fail = (spec, f)
@@ -1279,8 +1292,18 @@ def rule_matcher_tab(chk, idx):
         for seq in _it.product(items, repeat=n):
             for gs in _it.product([' ', ''], repeat=n - 1):
                 glued.append(seq[0] + ''.join(g + t for g, t in zip(gs, seq[1:])))
+    cjk_items = ['公', '里', '米', 'a']
+    cjk = list(cjk_items)
+    for n in ((2, 3) if tier == 'quick' else (2, 3, 4)):
+        for seq in _it.product(cjk_items, repeat=n):
+            for gs in _it.product([' ', ''], repeat=n - 1):
+                cjk.append(seq[0] + ''.join(g + t for g, t in zip(gs, seq[1:])))
+    cjk = sorted(set(cjk), key=lambda q: (len(q), q))
+    cjk_ent = [('公里', 'I1'), ('米', 'I2'), ('公', 'I3'), ('a 米', 'I4'), ('里 米', 'I5')]
     n_literal = {}
     for cname, kind, ent, qs in (
+            ('CJK phrases (one token per character), SimpleTokenizer', 'simple', cjk_ent, cjk),
+            ('CJK phrases (one token per character), NumberWithUnitTokenizer', 'nwu', cjk_ent, cjk),
             ('irregular spacing and symbols', 'simple', [('a', 'I1'), ('a bc', 'I2'), ('bc.', 'I3'), ('a  .\ta', 'I4')],
              _irregular_queries(tier)),
             ('NumberWithUnitTokenizer, tokens touching without a blank', 'nwu',
@@ -1310,11 +1333,12 @@ def rule_matcher_tab(chk, idx):
     chk.observe('%s: %d interpreted find() calls; per dictionary every query over its own words plus the filler word "x", joined '
                 'by single blanks, of up to %s tokens for dictionaries over 1/2/3 distinct words; %d dictionaries in %d shape '
                 'classes; irregular pass: %d queries with double blank / tab / no gap next to "."; touching-token pass '
-                '(NumberWithUnitTokenizer): %d queries; isolation: two build orders, alternating queries' % (
+                '(NumberWithUnitTokenizer): %d queries; CJK pass (phrases of Han characters, blanks optional, both tokenizers): %d '
+                'queries each; isolation: two build orders, alternating queries' % (
                     _TAB_FIND, total, '/'.join(str(nmax[k]) for k in (1, 2, 3)),
                     sum(len(s[2]) + (len(s[3]) if tier != 'quick' else 0) for s in _SHAPES), len(_SHAPES),
                     n_literal['irregular spacing and symbols'],
-                    n_literal['NumberWithUnitTokenizer, tokens touching without a blank']))
+                    n_literal['NumberWithUnitTokenizer, tokens touching without a blank'], len(cjk)))
     chk.observe('%s: StringMatcher cannot be used with MatchStrategy.AcAutomaton on this tree (AaNode.__init__ never initialises '
                 'Node\'s fields: init raises AttributeError; no caller selects it) - only the TrieTree strategy is tabulated'
                 % _TAB_FIND)
